@@ -68,9 +68,11 @@ func isInteger(k reflect.Kind) bool {
 	return false
 }
 
-// mayBeNil reports whether node contains a nil-safe access.
+// mayBeNil reports whether node is the nil literal or contains a nil-safe access.
 func mayBeNil(node Node) bool {
 	switch n := node.(type) {
+	case *NilNode:
+		return true
 	case *IdentifierNode:
 		return n.NilSafe
 	case *PropertyNode:
